@@ -73,7 +73,7 @@ func replay(sub string, raw json.RawMessage) ([]h.Failure, error) {
 // equality is a relation between VALUES: comparing a value with itself (the same variable on
 // both sides) gives what comparing it with an equal value held by another variable gives -
 // whatever the answer is where the manual leaves it open (not-a-number)
-const identityProg = "输入A、B\n令C = A\n输出【A 为 A，A 为 B，A 为 C，A == A，A == B，A == C，A /= A，A /= B，A /= C，A 不为 A，A 不为 B，A 不为 C，【A，1】 为 【A，1】，【A，1】 为 【B，1】，【A，1】 为 【C，1】，【“k” = A】 == 【“k” = A】，【“k” = A】 == 【“k” = B】，【“k” = A】 == 【“k” = C】】"
+const identityProg = "输入A、B\n令C = A\n令列 = 【A，1】\n令列二 = 列\n令典 = 【“k” = 【A】】\n令典二 = 典\n输出【列 为 列，列 为 【B，1】，列 为 列二，典 == 典，典 == 【“k” = 【B】】，典 == 典二，列 不为 列，列 不为 【B，1】，列 不为 列二，典 /= 典，典 /= 【“k” = 【B】】，典 /= 典二，A 为 A，A 为 B，A 为 C，A == A，A == B，A == C，A /= A，A /= B，A /= C，A 不为 A，A 不为 B，A 不为 C，【A，1】 为 【A，1】，【A，1】 为 【B，1】，【A，1】 为 【C，1】，【“k” = A】 == 【“k” = A】，【“k” = A】 == 【“k” = B】，【“k” = A】 == 【“k” = C】】"
 
 func checkIdentity(v inVal) []h.Failure {
 	o := h.Run(identityProg, h.Opts{Inputs: map[string]r.Element{"A": zn.ToElem(v.value()), "B": zn.ToElem(v.value())}})
@@ -82,11 +82,11 @@ func checkIdentity(v inVal) []h.Failure {
 		return []h.Failure{{Sig: "identity/" + o.Kind, Msg: desc + "\n" + o.Short()}}
 	}
 	arr, ok := o.Val.(*value.Array)
-	if !ok || len(arr.GetValue()) != 18 {
+	if !ok || len(arr.GetValue()) != 30 {
 		return []h.Failure{{Sig: "identity/not-a-list", Msg: desc + "\n" + o.Short()}}
 	}
 	items := arr.GetValue()
-	for i := 0; i < 18; i += 3 {
+	for i := 0; i < 30; i += 3 {
 		a, b, c := items[i].String(), items[i+1].String(), items[i+2].String()
 		if a != b || a != c {
 			return []h.Failure{{Sig: "identity/answer-depends-on-identity", Msg: fmt.Sprintf("%s\ncomparison #%d: with itself %s, with an equal value of another input %s, with a copy %s", desc, i/3+1, a, b, c)}}
